@@ -109,13 +109,21 @@ Proof.
     + inversion H; subst. exact Hd.
 Qed.
 
+Lemma settle_all_cons : forall fx d i r acc,
+  settle_all fx d (i :: r) acc =
+    match settle settle_fuel fx d i [] with
+    | SOk d' o => settle_all fx d' r (acc ++ o)
+    | e => e
+    end.
+Proof. reflexivity. Qed.
+
 Lemma settle_all_ok : forall fx ids d acc d' o,
   repaired fx -> all_ok d -> settle_all fx d ids acc = SOk d' o -> all_ok d'.
 Proof.
-  intros fx ids. induction ids as [|i r IH]; intros d acc d' o R Hd H; cbn [settle_all] in H.
-  - inversion H; subst. exact Hd.
-  - destruct (settle settle_fuel fx d i []) as [d1 o1| |] eqn:E; try discriminate H.
-    eapply IH; [exact R| |exact H]. eapply settle_ok; eauto.
+  intros fx ids. induction ids as [|i r IH]; intros d acc d' o R Hd H.
+  - cbn [settle_all] in H. inversion H; subst. exact Hd.
+  - rewrite settle_all_cons in H. destruct (settle settle_fuel fx d i []) as [d1 o1| |] eqn:E; try discriminate H.
+    eapply IH; [exact R| |exact H]. eapply settle_ok; [exact R|exact Hd|exact E].
 Qed.
 
 (* the tick's own updates do not touch what the invariant talks about, except that a keep-alive
@@ -193,14 +201,19 @@ Proof.
   all: cbv beta iota zeta in E; inversion E; subst; exact A.
 Qed.
 
+Lemma Forall_push_all : forall l ms, Forall (fun c => okc c = true) l ->
+  Forall (fun c => okc c = true) (map (fun c => push_sock c ms) l).
+Proof.
+  induction l as [|c r IH]; intros ms H; cbn [map]; [constructor|].
+  inversion H; subst. constructor; [rewrite okc_push_sock; assumption|apply IH; assumption].
+Qed.
+
 Lemma tick_ok : forall fx d d' o, repaired fx -> all_ok d -> tick fx d = SOk d' o -> all_ok d'.
 Proof.
   intros fx d d' o R H E. unfold tick in E.
   match type of E with context [settle_all fx ?a ?b ?c] => destruct (settle_all fx a b c) as [d0 o0| |] eqn:E0 end; try discriminate E.
   assert (H0 : all_ok d0).
-  { eapply settle_all_ok; [exact R| |exact E0]. apply all_ok_set_conns.
-    unfold all_ok in H. induction (d_conns d) as [|c r IH]; cbn [map]; [constructor|].
-    inversion H; subst. constructor; [rewrite okc_push_sock; assumption|apply IH; assumption]. }
+  { eapply settle_all_ok; [exact R| |exact E0]. apply all_ok_set_conns. apply Forall_push_all. exact H. }
   match type of E with context [match ?r with DpeOk _ => _ | DpeInternalError => _ end] => destruct r as [d1|] eqn:E1 end; [|discriminate E].
   assert (H1 : all_ok d1).
   { destruct (negb (d_private d0)); [eapply do_peer_exchange_ok; eauto|].
